@@ -4,10 +4,11 @@ import Driver.Chemicals
 import Driver.IBM
 import Driver.Gen
 import Driver.Release
+import Driver.Post
 open Driver
 
 def allHandlers : List (String × Handler) :=
-  chemHandlers ++ ibmHandlers ++ genHandlers ++ releaseHandlers
+  chemHandlers ++ ibmHandlers ++ genHandlers ++ releaseHandlers ++ postHandlers
 
 def table : Std.HashMap String Handler := Std.HashMap.ofList allHandlers
 
